@@ -151,8 +151,9 @@ produceLoop:
 }
 
 func getOctoSQLValue(t octosql.Type, value *fastjson.Value) (out octosql.Value, ok bool) {
-	if value == nil {
-		return octosql.NewNull(), t.TypeID == octosql.TypeIDNull
+	if value == nil || value.Type() == fastjson.TypeNull {
+		// A missing field and an explicit null are both NULL, which is representable if the type admits NULL.
+		return octosql.NewNull(), octosql.Null.Is(t) == octosql.TypeRelationIs
 	}
 
 	switch t.TypeID {
@@ -189,6 +190,10 @@ func getOctoSQLValue(t octosql.Type, value *fastjson.Value) (out octosql.Value, 
 	case octosql.TypeIDList:
 		if value.Type() == fastjson.TypeArray {
 			arr, _ := value.Array()
+			if t.List.Element == nil {
+				// The type was inferred from empty lists only, so only an empty list is representable.
+				return octosql.NewList(nil), len(arr) == 0
+			}
 			values := make([]octosql.Value, len(arr))
 
 			outOk := true
